@@ -124,7 +124,7 @@ class Hasher(Pickler):
     def save_type(self, obj):
         # type(None), type(NotImplemented) and type(...) cannot be found by
         # name in the builtins module: the Pickler has a special case for them.
-        if obj in (type(None), type(NotImplemented), type(...)):
+        if obj is type(None) or obj is type(NotImplemented) or obj is type(...):
             return Pickler.save_type(self, obj)
         return self.save_global(obj)
 
